@@ -150,6 +150,13 @@ def step (s : St) (toks : List String) : Option (St × String × String) :=
         | _, _, some v => some (.ctype (if v == "none" then none else some (mtOf v)))
         | _, _, _ => none
       some ({ s with corrupt := ← c }, "ok", "ok")
+  | "fetchrefnohdr" :: rest => do
+      -- FetchReference by digest: whatever headers come or do not come, only the requested
+      -- content is delivered; a body that is something else ends in an error (at the call, or
+      -- when the verified reader is drained)
+      let v ← kv rest "variant"
+      if v.startsWith "right-body" then some (s, "ok", "ok")
+      else some (s, "err", "err")
   | "mountdcd" :: rest => do
       -- Mount answered 201: the digest the registry names, if it names one, is the one asked for
       let h ← kv rest "header"
